@@ -39,9 +39,10 @@ VARIABLES
     accepted,   \* aids that were ever stored in the table
     ownSeen,    \* own inventory / refs announcements seen so far
     ownMax,     \* greatest timestamp among them
+    routing,    \* the routing table as observed: set of <<repo, node>>
     nviol       \* number of violations so far (keeps states distinct)
 
-vars == <<l, ann, clock, table, known, conn, vis, visStart, delivered, first, accepted, ownSeen, ownMax, nviol>>
+vars == <<l, ann, clock, table, known, conn, vis, visStart, delivered, first, accepted, ownSeen, ownMax, routing, nviol>>
 
 -----------------------------------------------------------------------------
 Key(a) == <<ann[a].node, ann[a].kind, ann[a].repo>>
@@ -127,25 +128,42 @@ StepViolations(o) ==
         tsViol == {[c |-> "C29_NotIncreasing", aid |-> a, to |-> 0, why |-> name] :
                         a \in {x \in newOwn : \/ ann[x].ts <= ownMax
                                               \/ \E y \in newOwn : y # x /\ ann[y].ts = ann[x].ts}}
+        \* Beyond the listed properties (informational clauses, prefix X_): the routing table.
+        \* After an accepted inventory announcement the announcer's entries are exactly that
+        \* inventory (sync_routing); a foreign entry only appears through the announcement being
+        \* processed in this step (inventory listing it, or non-empty refs for it).
+        newRouting == {<<x[1], x[2]>> : x \in ToSet(o.routing)}
+        accIn == name = "ann" /\ inAid # 0 /\ inAid \in added
+        routeViol ==
+            (IF accIn /\ ann[inAid].kind = "inv" /\ {e[1] : e \in {x \in newRouting : x[2] = ann[inAid].node}} # ToSet(ann[inAid].repos)
+             THEN {[c |-> "X_RoutingSync", aid |-> inAid, to |-> 0, why |-> "inventory-not-mirrored"]} ELSE {})
+            \cup
+            {[c |-> "X_RoutingUnjustified", aid |-> inAid, to |-> e[2], why |-> name] :
+                e \in {x \in newRouting \ routing :
+                          /\ x[2] # Self
+                          /\ ~(accIn /\ ann[inAid].node = x[2] /\
+                                ((ann[inAid].kind = "inv" /\ x[1] \in ToSet(ann[inAid].repos))
+                                 \/ (ann[inAid].kind = "refs" /\ ann[inAid].repo = x[1] /\ ann[inAid].nrefs > 0)))}}
         panicViol == IF o.panic # "" THEN {[c |-> "C13_Panic", aid |-> inAid, to |-> 0, why |-> name \o ": " \o o.panic]} ELSE {}
-    IN storeViol \cup relayViol \cup refsViol \cup invViol \cup tsViol \cup panicViol
+    IN storeViol \cup relayViol \cup refsViol \cup invViol \cup tsViol \cup routeViol \cup panicViol
 
 -----------------------------------------------------------------------------
 Init ==
     /\ l = 1 /\ ann = <<>> /\ clock = 0 /\ table = {} /\ known = {} /\ conn = {} /\ vis = <<>> /\ visStart = <<>>
-    /\ delivered = <<>> /\ first = <<>> /\ accepted = {} /\ ownSeen = {} /\ ownMax = -2000000000 /\ nviol = 0
+    /\ delivered = <<>> /\ first = <<>> /\ accepted = {} /\ ownSeen = {} /\ ownMax = -2000000000 /\ routing = {} /\ nviol = 0
 
 Reset ==
     /\ Rec[l].ev = "init"
     /\ ann' = <<>> /\ clock' = 0 /\ table' = {} /\ known' = {} /\ conn' = {} /\ vis' = <<>> /\ visStart' = <<>>
-    /\ delivered' = <<>> /\ first' = <<>> /\ accepted' = {} /\ ownSeen' = {} /\ ownMax' = -2000000000
+    /\ delivered' = <<>> /\ first' = <<>> /\ accepted' = {} /\ ownSeen' = {} /\ ownMax' = -2000000000 /\ routing' = {}
     /\ UNCHANGED nviol
 
 Def ==
     /\ Rec[l].ev = "def"
     /\ ann' = (Rec[l].aid :> [node |-> Rec[l].node, kind |-> Rec[l].kind, repo |-> Rec[l].repo,
-                               ts |-> Rec[l].ts, sig |-> Rec[l].sig, repos |-> Rec[l].repos]) @@ ann
-    /\ UNCHANGED <<clock, table, known, conn, vis, visStart, delivered, first, accepted, ownSeen, ownMax, nviol>>
+                               ts |-> Rec[l].ts, sig |-> Rec[l].sig, repos |-> Rec[l].repos,
+                               nrefs |-> Rec[l].nrefs]) @@ ann
+    /\ UNCHANGED <<clock, table, known, conn, vis, visStart, delivered, first, accepted, ownSeen, ownMax, routing, nviol>>
 
 Step ==
     /\ Rec[l].ev = "step"
@@ -173,6 +191,7 @@ Step ==
                       ELSE first
           /\ ownSeen' = ownSeen \cup newOwn
           /\ ownMax' = Max({ownMax} \cup {ann[a].ts : a \in newOwn})
+          /\ routing' = {<<x[1], x[2]>> : x \in ToSet(o.routing)}
     /\ UNCHANGED ann
 
 Next == /\ l <= Len(Rec)
